@@ -27,11 +27,16 @@ func (api *API) encode(ctx context.Context, value reflect.Value, ts TypeSettings
 		}
 	}
 
-	serializable, ok := valueI.(Serializable)
-	if !ok {
-		// a custom codec that is implemented on the pointer type is also used for a value that is held directly: this
-		// is what the decoder does (it uses the address of the value), and the two have to agree on the format
-		serializable, ok = addressOf(value).(Serializable)
+	// (an interface value is handled by encodeInterface, which checks that the implementation is registered for the
+	// interface and encodes it as a value of its own type - with its validator and, if it has one, its custom codec)
+	var serializable Serializable
+	ok := false
+	if valueType.Kind() != reflect.Interface {
+		if serializable, ok = valueI.(Serializable); !ok {
+			// a custom codec that is implemented on the pointer type is also used for a value that is held directly:
+			// this is what the decoder does (it uses the address of the value), and the two have to agree on the format
+			serializable, ok = addressOf(value).(Serializable)
+		}
 	}
 
 	if ok {
